@@ -3,4 +3,4 @@ Require Import ExtrOcamlBasic.
 From SharkV Require Import ListAux C03Model C19Model.
 Extraction "c19_model.ml" csv_import_data csv_import_reg csv_import_cls csv_import_ints csv_import_uints
   csv_import_reals svm_import_cls svm_import_reg svm_import_cls_coded svm_import_reg_coded
-  lex_double export_data export_cls export_reg class_count ds_elems.
+  lex_double export_data export_cls export_reg export_svm_cls export_svm_reg class_count ds_elems.
